@@ -177,9 +177,9 @@ def parse_defines(clause):
 def prepare_attributes(attrs, dyn_attributes, i18n_attributes,
                        ns_attributes, drop_ns):
     drop = {attribute['name']
-            for attribute, (ns, value) in zip(attrs, ns_attributes)
-            if ns in drop_ns or (
-                ns == XMLNS_NS and
+            for attribute in attrs
+            if attribute['namespace'] in drop_ns or (
+                attribute['namespace'] == XMLNS_NS and
                 attribute['value'] in drop_ns)}
 
     attributes = []
